@@ -166,13 +166,8 @@ int World::addForest(const FSpec& s)
                      : s.label == 'P' ? edge_labeling::EVPLUS
                      : s.label == 'T' ? edge_labeling::EVTIMES : edge_labeling::INDEX_SET;
     forest* f = nullptr;
-    bool excluded = false;
-    if (s.rel && s.red == 'I' && !strictWorld) {
-        for (int v = 1; v <= doms[s.dom].K(); v++) if (doms[s.dom].sizes[size_t(v)] == 1) excluded = true;
-        if (excluded) excludedIdent1++;
-    }
     try {
-        if (!excluded) f = forest::create(doms[s.dom].d, s.rel, rt, el, p);
+        f = forest::create(doms[s.dom].d, s.rel, rt, el, p);
     } catch (MEDDLY::error& e) {
         f = nullptr;
     }
